@@ -71,6 +71,8 @@ def role_renames(prog: Program) -> dict[str, dict[str, str]]:
         private = {}
         for name, ann in ci.attr_ann.items():
             if name.startswith("_") and not name.startswith("__"):
+                while isinstance(ann, ast.Subscript) and ast.unparse(ann.value).replace("typing.", "") in ("ClassVar", "Final"):
+                    ann = ann.slice  # `_current: ClassVar[ContextVar[T]] = ContextVar(...)`: the role is in the wrapped annotation
                 private[name] = ast.unparse(ann).replace("typing.", "")
         for name, val in ci.class_assign.items():
             if name.startswith("_") and not name.startswith("__") and name not in private and isinstance(val, ast.Call):
@@ -257,6 +259,9 @@ def _is_pure_conversion(e: ast.AST) -> bool:
     return False
 
 
+PKG_PREFIX = "haiway."
+
+
 class Inliner:
     MAX_DEPTH = 3
 
@@ -287,16 +292,64 @@ class Inliner:
                 return None
         return None
 
+    @staticmethod
+    def _pure_delegation(fi: FunctionInfo, call: ast.Call) -> bool:
+        body = [s for s in fi.node.body if not (isinstance(s, ast.Expr) and isinstance(s.value, ast.Constant))]
+        if len(body) != 1 or not isinstance(body[0], (ast.Expr, ast.Return)):
+            return False
+        v = body[0].value
+        if isinstance(v, ast.Await):
+            v = v.value
+        return ast.dump(v) == ast.dump(call)  # (the flattener works on a clone of the body)
+
+    def _bring_globals(self, fi: FunctionInfo, t: FunctionInfo) -> bool:
+        """Make every module-level name the callee reads resolvable in the caller's module (as an extra import of what it
+        resolves to in the callee's module); False when a name means something else there already."""
+        import builtins
+
+        bound = self.prog.local_names(t) | set(t.param_names())
+        free = {n.id for n in t.own_nodes() if isinstance(n, ast.Name) and isinstance(n.ctx, ast.Load)} - bound
+        for nf in t.nested:
+            free |= {n.id for n in nf.own_nodes() if isinstance(n, ast.Name) and isinstance(n.ctx, ast.Load)} - self.prog.local_names(nf) - set(nf.param_names()) - bound
+        adds: dict[str, str] = {}
+        for name in free:
+            if hasattr(builtins, name) and name not in t.module.imports and name not in t.module.functions and name not in t.module.classes and name not in t.module.assigns:
+                continue
+            there = self.prog.resolve_global(t.module, name)
+            if there is None or there.startswith(PKG_PREFIX):
+                # only code that depends on nothing of the package (code parked in another module) is read in place; a
+                # function that works on its own module's or class's state *is* the mechanism the caller delegates to
+                return False
+            here = self.prog.resolve_global(fi.module, name)
+            if here is None:
+                adds[name] = there
+            elif here != there:
+                return False
+        for k, v in adds.items():
+            fi.module.extra_imports.setdefault(k, v)
+            fi.module.imports.setdefault(k, v)
+        return True
+
     def target(self, fi: FunctionInfo, call: ast.Call, awaited: bool) -> FunctionInfo | None:
         sup = self._super_init(fi, call)
         if sup is not None and not awaited and not (sup.node.args.vararg or sup.node.args.kwarg) and not any(isinstance(x, (ast.Nonlocal, ast.Global)) for x in sup.own_nodes()):
             return sup
         q = self.prog.resolve_callee(fi, call)
         t = self.prog.functions.get(q or "")
-        if t is None or t is fi or t.module is not fi.module:
+        if t is None or t is fi:
             return None
+        delegated = False
+        if t.module is not fi.module:
+            # a function whose whole body hands the call on to a function of another module of the package (`ctx.cancel` ->
+            # `TaskGroupContext.cancel()`): that function is read in its place, with the names it uses resolved as in its own
+            # module
+            if t.is_method and "staticmethod" not in t.decorator_names():
+                return None  # works on its class / instance
+            if not (self._pure_delegation(fi, call) and self._bring_globals(fi, t)):
+                return None
+            delegated = True
         name = t.name
-        private = name.startswith("_") and not (name.startswith("__") and name.endswith("__"))
+        private = delegated or (name.startswith("_") and not (name.startswith("__") and name.endswith("__")))
         self_dunder = (
             name in ("__exit__", "__enter__")
             and isinstance(call.func, ast.Attribute)
@@ -1691,11 +1744,13 @@ def strip_typed_conversions(prog: Program) -> list[str]:
 
 # ---------------------------------------------------------------------------------------------- cursor loops
 def cursor_loops_as_recursion(prog: Program) -> list[str]:
-    """A method that ends in `cursor = self; while True: BODY(cursor); cursor = NEXT` - a walk along a chain of objects of
-    its own class, the tail call `NEXT.method()` written as a loop - is read in its recursive form again: BODY(self);
-    NEXT.method(); return.  One iteration with cursor = X is exactly one activation of the method on X when nothing but the
-    cursor is carried from one iteration to the next: every other local of the loop is bound unconditionally before it is
-    read, the loop has no break / continue / valued return, `self` is not used inside it and the method returns nothing."""
+    """A method that ends in `cursor = self; while True: BODY(cursor); cursor = NEXT` (or `while cursor is not None:` with
+    `cursor = None` to stop) - a walk along a chain of objects of its own class, the tail call `NEXT.method()` written as a
+    loop - is read in its recursive form again: BODY(self); NEXT.method(); return.  One iteration with cursor = X is exactly
+    one activation of the method on X when nothing but the cursor is carried from one iteration to the next: every other
+    local of the loop is bound unconditionally before it is read, the loop has no break / continue / valued return, `self`
+    is not used inside it, the method returns nothing, and the cursor is re-bound only as the last thing an iteration does
+    (on every path that does not return)."""
     log: list[str] = []
 
     def scoped_walk(n: ast.AST):
@@ -1705,39 +1760,40 @@ def cursor_loops_as_recursion(prog: Program) -> list[str]:
                 continue
             yield from scoped_walk(c)
 
+    def is_none(e: ast.AST | None) -> bool:
+        return isinstance(e, ast.Constant) and e.value is None
+
     for fi in list(prog.functions.values()):
         node = fi.node
         if not fi.is_method or not isinstance(node, ast.FunctionDef) or node.decorator_list:
             continue
         params = node.args.posonlyargs + node.args.args
-        if not params:
-            continue
+        if len(params) != 1 or node.args.kwonlyargs or node.args.vararg or node.args.kwarg:
+            continue  # further parameters would have to be carried as well
         selfname = params[0].arg
         body = node.body
         if len(body) < 2 or not isinstance(body[-1], ast.While):
             continue
         loop, init = body[-1], body[-2]
-        if not (isinstance(loop.test, ast.Constant) and loop.test.value is True and not loop.orelse and loop.body):
+        if loop.orelse or not loop.body:
             continue
         tgt = init.targets[0] if isinstance(init, ast.Assign) and len(init.targets) == 1 else (init.target if isinstance(init, ast.AnnAssign) else None)
         if not (isinstance(tgt, ast.Name) and isinstance(getattr(init, "value", None), ast.Name) and init.value.id == selfname):
             continue
         cursor = tgt.id
-        last = loop.body[-1]
-        ltgt = last.targets[0] if isinstance(last, ast.Assign) and len(last.targets) == 1 else (last.target if isinstance(last, ast.AnnAssign) and last.value is not None else None)
-        if not (isinstance(ltgt, ast.Name) and ltgt.id == cursor):
+        t = loop.test
+        forever = isinstance(t, ast.Constant) and t.value is True
+        until_none = isinstance(t, ast.Compare) and len(t.ops) == 1 and isinstance(t.ops[0], ast.IsNot) and isinstance(t.left, ast.Name) and t.left.id == cursor and is_none(t.comparators[0])
+        if not (forever or until_none):
             continue
         inner = [n for s in loop.body for n in scoped_walk(s)]
         everything = [n for s in loop.body for n in ast.walk(s)]
         if any(isinstance(n, (ast.Break, ast.Continue, ast.Yield, ast.YieldFrom, ast.Await, ast.Global, ast.Nonlocal)) for n in everything):
             continue
-        if any(isinstance(n, ast.Return) and n.value is not None and not (isinstance(n.value, ast.Constant) and n.value.value is None) for n in inner):
-            continue
-        if any(isinstance(n, ast.Return) and n.value is not None and not (isinstance(n.value, ast.Constant) and n.value.value is None) for s in body[:-2] for n in scoped_walk(s)):
+        valued = lambda n: isinstance(n, ast.Return) and n.value is not None and not is_none(n.value)  # noqa: E731
+        if any(valued(n) for n in inner) or any(valued(n) for s in body[:-2] for n in scoped_walk(s)):
             continue
         if any(isinstance(n, ast.Name) and n.id == selfname for n in everything):
-            continue
-        if sum(1 for n in everything if isinstance(n, ast.Name) and n.id == cursor and isinstance(n.ctx, ast.Store)) != 1:
             continue
         if any(isinstance(n, ast.Name) and n.id == cursor for s in body[:-2] for n in ast.walk(s)):
             continue
@@ -1747,22 +1803,78 @@ def cursor_loops_as_recursion(prog: Program) -> list[str]:
         stored.discard(cursor)
         ok = True
         for name in stored:
-            if any(isinstance(n, ast.Name) and n.id == name for s in body[:-2] for n in ast.walk(s)) or name in {p.arg for p in params + node.args.kwonlyargs}:
+            if any(isinstance(n, ast.Name) and n.id == name for s in body[:-2] for n in ast.walk(s)) or name == selfname:
                 ok = False
                 break
-            first = next((k for k, s in enumerate(loop.body) if any(isinstance(n, ast.Name) and n.id == name for n in ast.walk(s))), None)
-            s0 = loop.body[first] if first is not None else None
-            t0 = s0.targets[0] if isinstance(s0, ast.Assign) and len(s0.targets) == 1 else (s0.target if isinstance(s0, ast.AnnAssign) and s0.value is not None else None)
-            if not (isinstance(t0, ast.Name) and t0.id == name) or any(isinstance(n, ast.Name) and n.id == name for n in ast.walk(s0.value)):  # type: ignore[union-attr]
+            # bound (unconditionally, by a plain assignment that does not read it) in front of every read: the first statement
+            # mentioning the name - at the top level of the loop body, or of the branch that alone uses it - is that assignment
+            def first_is_binding(block: list[ast.stmt], name=name) -> bool:
+                first = next((k for k, s in enumerate(block) if any(isinstance(n, ast.Name) and n.id == name for n in ast.walk(s))), None)
+                if first is None:
+                    return True
+                s0 = block[first]
+                t0 = s0.targets[0] if isinstance(s0, ast.Assign) and len(s0.targets) == 1 else (s0.target if isinstance(s0, ast.AnnAssign) and s0.value is not None else None)
+                if isinstance(t0, ast.Name) and t0.id == name and not any(isinstance(n, ast.Name) and n.id == name for n in ast.walk(s0.value)):  # type: ignore[union-attr]
+                    return True
+                if isinstance(s0, ast.If) and not any(isinstance(n, ast.Name) and n.id == name for n in ast.walk(s0.test)) and not any(isinstance(n, ast.Name) and n.id == name for s in block[first + 1 :] for n in ast.walk(s)):
+                    return first_is_binding(s0.body) and first_is_binding(s0.orelse)
+                return False
+
+            if not first_is_binding(loop.body):
                 ok = False
                 break
         if not ok:
             continue
         cls = fi.qualname.rsplit(".", 1)[0]
-        nxt = last.value
-        t = prog.expr_type(fi, nxt)
-        if t is None or t.name != cls:
+
+        # every re-binding of the cursor is the last statement of its path through the loop body
+        stores = [n for n in everything if isinstance(n, ast.Name) and n.id == cursor and isinstance(n.ctx, ast.Store)]
+        tails: list[tuple[list[ast.stmt], int, list[ast.If]]] = []
+
+        def collect(block: list[ast.stmt], guards: list) -> bool:
+            """False when a path through `block` reaches its end without re-binding the cursor or returning."""
+            if not block:
+                return False
+            last = block[-1]
+            lt = last.targets[0] if isinstance(last, ast.Assign) and len(last.targets) == 1 else (last.target if isinstance(last, ast.AnnAssign) and last.value is not None else None)
+            if isinstance(lt, ast.Name) and lt.id == cursor:
+                tails.append((block, len(block) - 1, list(guards)))
+                return True
+            if isinstance(last, (ast.Return, ast.Raise)):
+                return True
+            if isinstance(last, ast.If):
+                return collect(last.body, guards + [(last, True)]) and collect(last.orelse, guards + [(last, False)])
+            return False
+
+        if not collect(loop.body, []) or len(tails) != len(stores) or not tails:
             continue
+        good = True
+        for block, i, _g in tails:
+            v = block[i].value  # type: ignore[union-attr]
+            if is_none(v):
+                if not until_none:
+                    good = False
+            else:
+                ty = prog.expr_type(fi, v)
+                if ty is None or ty.name != cls:
+                    good = False
+        if not good:
+            continue
+
+        def known_not_none(v: ast.AST, guards: list) -> bool:
+            if not isinstance(v, ast.Name):
+                return False
+            for g, arm in guards:
+                if not arm:
+                    continue
+                first = g.test
+                while isinstance(first, ast.BoolOp) and isinstance(first.op, ast.And):
+                    first = first.values[0]
+                if isinstance(first, ast.Name) and first.id == v.id:
+                    return True
+                if isinstance(first, ast.Compare) and len(first.ops) == 1 and isinstance(first.ops[0], ast.IsNot) and isinstance(first.left, ast.Name) and first.left.id == v.id and is_none(first.comparators[0]):
+                    return True
+            return False
 
         class S(ast.NodeTransformer):
             def visit_Name(self, n: ast.Name):  # noqa: N802
@@ -1770,13 +1882,22 @@ def cursor_loops_as_recursion(prog: Program) -> list[str]:
                     return ast.copy_location(ast.Name(id=selfname, ctx=ast.Load()), n)
                 return n
 
-        new_body = [S().visit(s) for s in loop.body[:-1]]
-        call = ast.copy_location(ast.Expr(value=ast.Call(func=ast.Attribute(value=S().visit(nxt), attr=node.name, ctx=ast.Load()), args=[], keywords=[])), last)
-        if len(params) != 1 or node.args.kwonlyargs or node.args.vararg or node.args.kwarg:
-            continue  # further parameters would have to be carried as well
-        node.body = body[:-2] + new_body + [call, ast.copy_location(ast.Return(value=None), last)]
+        shown = ""
+        for block, i, guards in tails:
+            st = block[i]
+            v = st.value  # type: ignore[union-attr]
+            ret = ast.copy_location(ast.Return(value=None), st)
+            if is_none(v):
+                block[i : i + 1] = [ret]
+                continue
+            call = ast.copy_location(ast.Expr(value=ast.Call(func=ast.Attribute(value=v, attr=node.name, ctx=ast.Load()), args=[], keywords=[])), st)
+            shown = ast.unparse(call.value)
+            if until_none and not known_not_none(v, guards):
+                call = ast.copy_location(ast.If(test=ast.Compare(left=clone(v), ops=[ast.IsNot()], comparators=[ast.Constant(value=None)]), body=[call], orelse=[]), st)
+            block[i : i + 1] = [call, ret]
+        node.body = body[:-2] + [S().visit(s) for s in loop.body]
         ast.fix_missing_locations(node)
-        log.append(f"{fi.short}: loop over the cursor `{cursor}` read as the tail call {ast.unparse(call.value)}")
+        log.append(f"{fi.short}: loop over the cursor `{cursor}` read as the tail call {shown}")
     return log
 
 
@@ -1879,4 +2000,118 @@ def explicit_context_protocol_as_with(prog: Program) -> list[str]:
         if count:
             ast.fix_missing_locations(fi.node)
             log.append(f"{fi.short}: {count} spelled-out enter / try / exit protocol(s) read as with statement(s)")
+    return log
+
+
+# ---------------------------------------------------------------------------------------------- returned module-level functions
+def nest_returned_module_functions(prog: Program) -> list[str]:
+    """A private module-level function that only one other module-level function refers to, and only to `return` it (a
+    closure that captured nothing, hoisted out of its factory), is read as the nested function it was: the same code, with
+    the same globals, handed out by the same factory - only that a fresh function object per call is no longer made, which
+    nothing in the package observes (functions are not compared or used as keys)."""
+    log: list[str] = []
+    for mod in prog.modules.values():
+        body = mod.tree.body
+        funcs = {s.name: s for s in body if isinstance(s, (ast.FunctionDef, ast.AsyncFunctionDef))}
+        moved = 0
+        for name, fdef in list(funcs.items()):
+            if not name.startswith("_") or name.startswith("__") or fdef.decorator_list:
+                continue
+            if f"{mod.name}.{name}".replace("haiway.", "", 1) in ANCHOR_HELPERS or f"{mod.name}.{name}" in ANCHOR_HELPERS:
+                continue
+            uses = [n for n in ast.walk(mod.tree) if isinstance(n, ast.Name) and n.id == name]
+            if not uses or any(not isinstance(n.ctx, ast.Load) for n in uses):
+                continue
+            owners = set()
+            ok = True
+            for u in uses:
+                owner = None
+                for g in funcs.values():
+                    if g is not fdef and any(x is u for x in ast.walk(g)):
+                        owner = g
+                if owner is None:
+                    ok = False
+                    break
+                owners.add(owner.name)
+                rets = [r for r in ast.walk(owner) if isinstance(r, ast.Return) and r.value is u]
+                in_nested = any(isinstance(x, (ast.FunctionDef, ast.AsyncFunctionDef, ast.Lambda)) and x is not owner and any(y is u for y in ast.walk(x)) for x in ast.walk(owner))
+                if not rets or in_nested:
+                    ok = False
+                    break
+            if not ok or len(owners) != 1:
+                continue
+            owner = funcs[next(iter(owners))]
+            # other modules must not import it, and the owner must not bind the name itself
+            if any(name in (a.asname or a.name for a in imp.names) for m2 in prog.modules.values() for imp in ast.walk(m2.tree) if isinstance(imp, ast.ImportFrom)):
+                continue
+            if any(isinstance(x, ast.arg) and x.arg == name for x in ast.walk(owner)) or any(isinstance(x, ast.Name) and x.id == name and not isinstance(x.ctx, ast.Load) for x in ast.walk(owner)):
+                continue
+            # names the function reads must not be shadowed by the owner's parameters / locals
+            owner_bound = {a.arg for a in ast.walk(owner.args) if isinstance(a, ast.arg)} | {x.id for x in ast.walk(owner) if isinstance(x, ast.Name) and isinstance(x.ctx, ast.Store)}
+            inner_bound = {a.arg for a in ast.walk(fdef.args) if isinstance(a, ast.arg)} | {x.id for x in ast.walk(fdef) if isinstance(x, ast.Name) and isinstance(x.ctx, ast.Store)}
+            free = {x.id for x in ast.walk(fdef) if isinstance(x, ast.Name) and isinstance(x.ctx, ast.Load)} - inner_bound
+            if free & owner_bound:
+                continue
+            at = 1 if owner.body and isinstance(owner.body[0], ast.Expr) and isinstance(owner.body[0].value, ast.Constant) and isinstance(owner.body[0].value.value, str) else 0
+            body.remove(fdef)
+            owner.body.insert(at, fdef)
+            del funcs[name]
+            moved += 1
+        if moved:
+            ast.fix_missing_locations(mod.tree)
+            log.append(f"{mod.name}: {moved} module-level function(s) that only their factory returns read as its nested function(s)")
+    return log
+
+
+# ---------------------------------------------------------------------------------------------- single exit through a result variable
+def sink_result_returns(prog: Program) -> list[str]:
+    """A function that ends in `return r`, r a plain local bound in the branches in front of it (`if c: r = a  else: r = b;
+    return r`, also through try / except arms), is read with the return moved to the end of every arm and `r = E; return r`
+    folded to `return E`: the same paths, the same values, written with early returns.  Arms are the bodies of a trailing
+    `if` / `try` (its `else` when it has one, and every handler); nothing is moved into `with` blocks (an exit may suppress)
+    or loops."""
+    log: list[str] = []
+
+    def sink(block: list[ast.stmt], r: str, where: ast.AST, folded: list[int]) -> None:
+        last = block[-1] if block else None
+        tgt = None
+        if isinstance(last, ast.Assign) and len(last.targets) == 1:
+            tgt = last.targets[0]
+        elif isinstance(last, ast.AnnAssign) and last.value is not None:
+            tgt = last.target
+        if isinstance(tgt, ast.Name) and tgt.id == r:
+            block[-1] = ast.copy_location(ast.Return(value=last.value), last)  # type: ignore[union-attr]
+            folded[0] += 1
+        elif isinstance(last, ast.If):
+            sink(last.body, r, where, folded)
+            sink(last.orelse, r, where, folded)
+        elif isinstance(last, ast.Try) and not any(isinstance(x, ast.Return) for s in last.finalbody for x in ast.walk(s)):
+            sink(last.orelse if last.orelse else last.body, r, where, folded)
+            for h in last.handlers:
+                sink(h.body, r, where, folded)
+        elif isinstance(last, (ast.Raise, ast.Return, ast.Continue, ast.Break)):
+            pass
+        else:
+            block.append(ast.copy_location(ast.Return(value=ast.Name(id=r, ctx=ast.Load())), where))
+
+    for fi in list(prog.functions.values()):
+        body = fi.node.body
+        if len(body) < 2 or not isinstance(body[-1], ast.Return) or not isinstance(body[-1].value, ast.Name):
+            continue
+        r = body[-1].value.id
+        if not isinstance(body[-2], (ast.If, ast.Try)):
+            continue
+        # the variable is a plain local of this function: not shared with closures, not declared global / nonlocal
+        if any(isinstance(n, (ast.Global, ast.Nonlocal)) and r in n.names for n in ast.walk(fi.node)):
+            continue
+        if any(isinstance(n, (ast.FunctionDef, ast.AsyncFunctionDef, ast.Lambda)) and n is not fi.node and any(isinstance(x, ast.Name) and x.id == r for x in ast.walk(n)) for n in ast.walk(fi.node)):
+            continue
+        trial = [clone(s) for s in body[:-1]]
+        folded = [0]
+        sink(trial, r, body[-1], folded)
+        if not folded[0]:
+            continue
+        fi.node.body = trial
+        ast.fix_missing_locations(fi.node)
+        log.append(f"{fi.short}: single exit through `{r}` read as {folded[0]} early return(s)")
     return log
